@@ -88,7 +88,7 @@ def _entry() -> bool:
         with NoTracing():
             RUN.paths += 1
             RUN.choices += nch
-        return ctx.reached_n == 0
+        return ctx.reached_n == 0 and ok  # an oracle failure also proves the oracle was reached
     if ok:
         with NoTracing():
             RUN.paths += 1
